@@ -677,11 +677,34 @@ def chkMoveOps (stride : Nat) (perItem : List String) : G (List String) := do
   let mut idx := 0
   let empty : Spec.Position :=
     { cells := Array.replicate 64 none, side := .white, wks := false, wqs := false, bks := false, bqs := false, ep := none }
+  -- every item is emitted twice: as it is, and with BYSTANDERS of the side that gets checked (a
+  -- knight and a rook on the first free squares that keep everything legal): their moves do not
+  -- answer the check, so a generator that misjudges "in check" on the successor offers them
+  let withBystanders (P : Spec.Position) (m : Spec.Move) : Option Spec.Position := Id.run do
+    let victim := P.side.opp
+    let mut Q := P
+    let mut placed := 0
+    for k in [Kind.knight, Kind.rook] do
+      let mut done := false
+      for i in [0:64] do
+        let s : Spec.Sq := ⟨(i * 5 + 3) % 8, (i * 3 + (if victim == Color.white then 1 else 6)) % 8⟩
+        if !done && (Q.at s).isNone && s != m.dst && s != m.src && P.ep != some s then
+          let Q' := Q.put s (some ⟨victim, k⟩)
+          if Spec.LegalPosition Q' && Spec.legal Q' m && (let R := Spec.apply Q' m; Spec.inCheck R R.side) then
+            Q := Q'
+            done := true
+            placed := placed + 1
+    return if placed > 0 then some Q else none
   let emit (P : Spec.Position) (m : Spec.Move) (keepQuiet : Bool) : List String :=
     if Spec.LegalPosition P && Spec.legal P m then
       let Q := Spec.apply P m
       if Spec.inCheck Q Q.side || keepQuiet then
-        [fenLine P 0 1, s!"pick {Spec.moveText m}"] ++ perItem
+        [fenLine P 0 1, s!"pick {Spec.moveText m}"] ++ perItem ++
+          (if Spec.inCheck Q Q.side then
+            match withBystanders P m with
+            | some P' => [fenLine P' 0 1, s!"pick {Spec.moveText m}"] ++ perItem
+            | none => []
+           else [])
       else []
     else []
   -- (A) castling with check
